@@ -110,6 +110,18 @@ func c07Queries(thorough bool) []c07Q {
 			out = append(out, c07Q{&qQuery{items: l, from: from, where: w, limit: -1, offset: -1}, "implicit-group"})
 		}
 	}
+	// LIMIT / OFFSET apply to the result of the aggregation (one row), never to its input
+	for _, l := range aggLists {
+		if len(l) > 1 && len(l) < maxAgg {
+			continue
+		}
+		for _, lo := range [][3]int{{1, -1, 1}, {2, -1, 1}, {1, 0, 1}, {0, -1, 1}, {-1, 1, 1}, {1, 1, 0}} {
+			out = append(out, c07Q{&qQuery{items: l, from: from, limit: lo[0], offset: lo[1], limitFirst: lo[2] == 1}, "implicit-group+limit"})
+		}
+	}
+	for _, lo := range [][3]int{{1, -1, 1}, {1, 1, 1}, {-1, 1, 1}} {
+		out = append(out, c07Q{&qQuery{items: []qItem{{kind: "col", col: qRef{"", "g1"}}, {kind: "count*"}}, from: from, groupBy: []qRef{{"", "g1"}}, orderBy: []qSort{{qRef{"", "g1"}, ""}}, limit: lo[0], offset: lo[1], limitFirst: true}, "group-by+order+limit"})
+	}
 	// explicit grouping: 1..2 grouping columns (distinct base columns) in every position among 1..2 aggregates
 	base := func(g gcol) string { return g.item.col.name }
 	for gi, ga := range gcols {
